@@ -79,8 +79,10 @@ def _run_variant(pid, files, path, text, seed):
         return {"status": "analysis-error", "why": str(e)[:300]}
     except Exception as e:   # noqa
         return {"status": "analysis-error", "why": repr(e)[:300]}
-    if rep.findings:
-        return {"status": "killed", "by": sorted({f.rule for f in rep.findings})[:6], "first": str(rep.findings[0])[:300]}
+    listed = {k["key"] for k in load_known_findings().get("findings", [])}
+    new = [f for f in rep.findings if f.key not in listed]
+    if new:
+        return {"status": "killed", "by": sorted({f.rule for f in new})[:6], "first": str(new[0])[:300]}
     return {"status": "survived"}
 
 
